@@ -57,6 +57,7 @@ P = {
          "float takes the true edge of a float comparison, so NaN is never accepted by default; every one of them decides on the kind of the "
          "value behind pointers and none recognises strings by an assertion to string; in reifyStruct every field that is not skipped reaches an "
          "unpack/validate routine, and uses the field's own validate tag, before the next iteration (an inlined map or struct included: validateStruct, the sibling that only validates, applies the tag to every field). "
+         "The kind dispatch of nonzero, min and max has a comparing case for each of the thirteen numeric kinds, uintptr included (R04l). "
          "That each built-in validator computes the right predicate otherwise is not decided.",
          TRUST + "Custom validators and Validate() methods are user code: decided is that they are called.",
          "§3 C04"),
@@ -87,7 +88,7 @@ P = {
          "their range guards admit the whole range of the destination (the extreme representable values pass); a Go value is read by its kind "
          "(reflect Int/Uint/Float/Bool/String into a value constructor) only in normalizeValue, where the specially encoded types come first; "
          "the struct writer and the struct readers enumerate fields with the same reflect interface (no promoted fields on one side only); an object is "
-         "demanded for a struct-kinded target only after the struct types that are written as text (regexp) were excluded, for fresh and pre-filled targets alike.",
+         "demanded for a struct-kinded target only after the struct types that are written as text (regexp) were excluded, for fresh and pre-filled targets alike; a node is read back as a list through its list part only (castArr never wraps a sub-configuration as its own single element, R06l).",
          TRUST + "Value equality after the round trip (number formatting and precision, pointer depth, nil vs empty, Duration text) is value-level and "
          "not decided; the class tables of handler functions and the inverse-pair table are frozen in the checker (unknown handlers are undecided).",
          "§3 C06"),
@@ -189,7 +190,7 @@ P = {
          "over VTA) and must be nil or of a type implementing ucfg.Error; raw Err* variables, errors.New/fmt.Errorf, library and callback errors are "
          "violations unless wrapped by a raise* constructor (an Error extracted from user code by assertion or errors.As and returned unwrapped "
          "is one). Also: error literals carry a class variable and a reason that is non-nil on that path; "
-         "constructors get context and metadata of one object, the receiver of the failing conversion; where a function has the setting at fault in hand (castArr, reifyGetField) the source named is that setting's own, the enclosing configuration's only for a setting that is missing (R14g); the walkers of a path raise their errors at the node the walk has reached, never at the configuration it started from (R14h: the path named is the setting's full path). Message text / completeness of the path rest "
+         "constructors get context and metadata of one object, the receiver of the failing conversion; where a function has the setting at fault in hand (castArr, reifyGetField) the source named is that setting's own, the enclosing configuration's only for a setting that is missing (R14g); the walkers of a path raise their errors at the node the walk has reached, never at the configuration it started from (R14h: the path named is the setting's full path). Every raise* constructor answers with an error it builds, never with one it was given (R14i), and the path it is handed is rendered from the parent chain at that moment: context.path / pathOf keep nothing in a node (R14j). Message text / completeness of the path rest "
          "on C15 and are not decided.",
          TRUST + "Values of static type ucfg.Error are typed by the Go type system.",
          "§3 C14, appendix B E9"),
@@ -202,7 +203,7 @@ P = {
          "stores its argument reachably on every path; Parent() and path() read the same two fields; the text of an index field is the decimal "
          "rendering of its own integer; every key FlattenedKeys emits has a context path in its derivation, the family walks both parts of a node and "
          "classifies values by toConfig; context.path takes the node without parent for the root, never an empty name, and no function that produces paths (path, pathOf, the FlattenedKeys family and their string helpers) compares a path text with the empty string (R15m); an existing node is re-contexted only next to the store that attaches it or to renumber it. Since the invariant can only be broken at a "
-         "store or a move, it holds after any operation history. FlattenedKeys' set equality and the diff partition are not decided.",
+         "store or a move, it holds after any operation history. A path is rendered from the parent chain on every call, never kept in a node (R15o); CompareConfigs relates the keys of the two configurations by membership only — if it compares them by order, FlattenedKeys must return sort.Strings order (R15n). FlattenedKeys' set equality and the diff partition are not decided.",
          TRUST,
          "§3 C15"),
  "C16": (True,
@@ -246,7 +247,7 @@ P = {
          "its raw value part is empty — never after the value was parsed, so null/[]/{} still override), and that the config a loader returns is "
          "made by NewFrom / New+Merge or the user's file loader, so that the flag's options apply to the value, and that Collector.Add merges "
          "only a non-nil config (an ignored argument yields none) and that an error a loader reports to the flag package is the one it hands to the "
-         "collector, and that no observer of a flag value (String — which package flag calls itself —, Get, Config, Error) reaches Collector.Add on the call graph, so that only a failing argument can stop the collection. These are necessary structural "
+         "collector, and that no observer of a flag value (String — which package flag calls itself —, Get, Config, Error) reaches Collector.Add on the call graph, so that only a failing argument can stop the collection. The loader closures handed to newFlagValue keep no state between calls (R19i: every occurrence of a flag is loaded like the first), and the collector's configuration is stored by its constructor only — what is added is merged, never adopted (R19j). These are necessary structural "
          "clauses of C19 that hold for all argument sequences at once; equality with a sequence of merges (a value-level fact) is not decided.",
          TRUST + "Does not cover user-supplied FileLoader functions.",
          "§3 C19"),
